@@ -48,6 +48,13 @@ def check(ctx):
         f = _setter(S, name) if name in ("value", "data") else S.own_method(name)
         V = FuncView(ctx, f, may_raise=may_raise_attr)
         st = _stamp_stores(V)
+        deleg = V.call_nodes("self.stampNow") if name != "stampNow" else []
+        if deleg and not st:
+            # the stamping is delegated to stampNow() (itself one of the four methods judged here): every path must call it
+            okd = bool(V.always_then([V.cfg.entry], deleg))
+            ctx.check(okd, "T2-stamp", f, "Share.%s stamps through self.stampNow() on every path" % name,
+                      "assigning a share's value / updating its fields must stamp it on every path")
+            continue
         good = [n for n in st if src(n.ast.value) == "self.store.stamp"]
         none = [n for n in st if isinstance(n.ast.value, ast.Constant) and n.ast.value.value is None]
         ok = bool(good) and bool(none) and len(good) + len(none) == len(st)
@@ -63,7 +70,8 @@ def check(ctx):
     up = S.own_method("update")
     U = FuncView(ctx, up)
     ch = U.need(U.call_nodes("self.change"), "self.change(*pa, **kwa) in update")
-    ctx.check(U.dominated(_stamp_stores(U), ch), "T2-stamp", up, "update: fields changed, then stamped", "update = change + stamp")
+    stamps = _stamp_stores(U) or U.call_nodes("self.stampNow")
+    ctx.check(bool(stamps) and U.dominated(stamps, ch), "T2-stamp", up, "update: fields changed, then stamped", "update = change + stamp")
     stamping_calls = ("self.update", "self.stampNow")
     for name in NON_STAMPING:
         f = S.own_method(name)
